@@ -46,6 +46,14 @@ def unhex (s : String) : Option (List UInt8) :=
 def sha3L (l : List UInt8) : List UInt8 := (Crypto.sha3_512 (ByteArray.mk l.toArray)).toList
 def sha256L (l : List UInt8) : List UInt8 := (Crypto.sha256 (ByteArray.mk l.toArray)).toList
 
+/-- the ledger modulo address spelling: the model credits the string it is given (a prover key as
+sent), the chain credits the account that string denotes; balances of all spellings of one account
+are summed before the comparison -/
+def byAccount (s : State) (b : Bank) : Bank :=
+  b.foldl (fun acc kv =>
+    let k := (acctOf s kv.1.1, kv.1.2)
+    AMap.set acc k ((AMap.get acc k).getD 0 + kv.2)) []
+
 def diff (m i : State) : Option String :=
   allSome [cmpMap "files" (canonMap m.files) (canonMap i.files),
     cmpMap "files2" (canonMap m.files2) (canonMap i.files2),
@@ -56,7 +64,7 @@ def diff (m i : State) : Option String :=
     cmpMap "gauges" (canonMap m.gauges) (canonMap i.gauges),
     cmpMap "attests" (canonMap m.attests) (canonMap i.attests),
     cmpMap "reports" (canonMap m.reports) (canonMap i.reports),
-    cmpMap "bank" (canonMap (canonBank m.bank)) (canonMap (canonBank i.bank))]
+    cmpMap "bank" (canonMap (canonBank (byAccount i m.bank))) (canonMap (canonBank (byAccount i i.bank)))]
 
 def wellFormed (s : State) : Bool :=
   keysNodup s.files && keysNodup s.files2 && keysNodup s.proofs && keysNodup s.providers &&
